@@ -7,37 +7,39 @@ namespace GoZero.C06
 /-! ### fail fast -/
 
 theorem takeP_failfast (c : Cfg) (s : St) (pk j : Nat) (m : List Bool) (dbf : Bool) (h : failAt m 0 = true) :
-    takeP c s pk j m dbf = (s, { res := .cacheerr, q := 0, cmds := [(.get, true)] }) := by
-  unfold takeP; simp [getCache_fail s (.p pk) m h]
+    takeP c s pk j m dbf = (s, { res := .cacheerr, q := 0, cmds := [⟨.get, c.place (.p pk), [.p pk], true⟩] }) := by
+  unfold takeP; simp [getCache_fail s _ (.p pk) m h]
 
 theorem qindex_failfast (c : Cfg) (s : St) (a j : Nat) (m : List Bool) (dbf : Bool) (h : failAt m 0 = true) :
-    qindex c s a j m dbf = (s, { res := .cacheerr, q := 0, cmds := [(.get, true)] }) := by
-  unfold qindex; simp [getCache_fail s (.x a) m h]
+    qindex c s a j m dbf = (s, { res := .cacheerr, q := 0, cmds := [⟨.get, c.place (.x a), [.x a], true⟩] }) := by
+  unfold qindex; simp [getCache_fail s _ (.x a) m h]
 
 /-! ### served from the cache -/
 
 theorem takeP_served (c : Cfg) {s : St} {pk : Nat} {e : Entry} (j : Nat) {m : List Bool} (dbf : Bool)
-    (he : s.cache (.p pk) = some e) (hl : e.val = .ph ∨ parses (.p pk) e.val = true) (hf : failAt m 0 = false) :
+    (he : s.cache (c.slot (.p pk)) = some e) (hl : e.val = .ph ∨ parses (.p pk) e.val = true) (hf : failAt m 0 = false) :
     takeP c s pk j m dbf =
-      (s, { res := if e.val = .ph then .notfound else .val e.val, q := 0, cmds := [(.get, false)] }) := by
+      (s, { res := if e.val = .ph then .notfound else .val e.val, q := 0,
+            cmds := [⟨.get, c.place (.p pk), [.p pk], false⟩] }) := by
   unfold takeP
   rw [getCache_live he hl hf]
   by_cases hv : e.val = .ph <;> simp [hv]
 
 theorem qindex_served_placeholder (c : Cfg) {s : St} {a : Nat} {e : Entry} (j : Nat) {m : List Bool} (dbf : Bool)
-    (he : s.cache (.x a) = some e) (hv : e.val = .ph) (hf : failAt m 0 = false) :
-    qindex c s a j m dbf = (s, { res := .notfound, q := 0, cmds := [(.get, false)] }) := by
+    (he : s.cache (c.slot (.x a)) = some e) (hv : e.val = .ph) (hf : failAt m 0 = false) :
+    qindex c s a j m dbf = (s, { res := .notfound, q := 0, cmds := [⟨.get, c.place (.x a), [.x a], false⟩] }) := by
   unfold qindex
   rw [getCache_live he (Or.inl hv) hf]
   simp [hv]
 
 /-- index entry cached and primary entry cached: both GETs, no database call, state untouched. -/
 theorem qindex_served (c : Cfg) {s : St} {a n : Nat} {e e' : Entry} (j : Nat) {m : List Bool} (dbf : Bool)
-    (he : s.cache (.x a) = some e) (hv : e.val = .pk n)
-    (he' : s.cache (.p n) = some e') (hl : e'.val = .ph ∨ parses (.p n) e'.val = true)
+    (he : s.cache (c.slot (.x a)) = some e) (hv : e.val = .pk n)
+    (he' : s.cache (c.slot (.p n)) = some e') (hl : e'.val = .ph ∨ parses (.p n) e'.val = true)
     (hf : failAt m 0 = false) (hf' : failAt m 1 = false) :
     qindex c s a j m dbf =
-      (s, { res := if e'.val = .ph then .notfound else .val e'.val, q := 0, cmds := [(.get, false), (.get, false)] }) := by
+      (s, { res := if e'.val = .ph then .notfound else .val e'.val, q := 0,
+            cmds := [⟨.get, c.place (.x a), [.x a], false⟩, ⟨.get, c.place (.p n), [.p n], false⟩] }) := by
   unfold qindex
   have hp : parses (.x a) e.val = true := by simp [hv, parses]
   rw [getCache_live he (Or.inr hp) hf]
@@ -50,7 +52,7 @@ theorem qindex_served (c : Cfg) {s : St} {a n : Nat} {e e' : Entry} (j : Nat) {m
 
 /-! ### database errors are returned and never cached -/
 
-theorem setex_fail_or (s : St) (k v t o f) (k' : CKey) :
+theorem setex_fail_or (s : St) (k v t o f) (k' : Slot) :
     (setex s k v t o f).cache k' = s.cache k' ∨ (k' = k ∧ (setex s k v t o f).cache k' = some ⟨v, t * 1000, o⟩) := by
   unfold setex
   split
@@ -61,10 +63,10 @@ theorem setex_fail_or (s : St) (k v t o f) (k' : CKey) :
 theorem takeP_dberr (c : Cfg) (s : St) (pk j : Nat) (m : List Bool) (dbf : Bool)
     (h : (takeP c s pk j m dbf).2.res = .dberr) :
     dbf = true ∧ (takeP c s pk j m dbf).2.q = 1 ∧ Shrinks s (takeP c s pk j m dbf).1 := by
-  have hs := getCache_shrinks s (.p pk) m
+  have hs := getCache_shrinks s (c.place (.p pk)) (.p pk) m
   unfold takeP at h ⊢
   simp only [] at h ⊢
-  cases hg : (getCache s (CKey.p pk) m).2.1 <;> simp only [hg] at h ⊢
+  cases hg : (getCache s (c.place (.p pk)) (CKey.p pk) m).2.1 <;> simp only [hg] at h ⊢
   · cases h
   · cases h
   · cases h
@@ -76,10 +78,10 @@ theorem takeP_dberr (c : Cfg) (s : St) (pk j : Nat) (m : List Bool) (dbf : Bool)
 theorem qindex_dberr (c : Cfg) (s : St) (a j : Nat) (m : List Bool) (dbf : Bool)
     (h : (qindex c s a j m dbf).2.res = .dberr) :
     dbf = true ∧ (qindex c s a j m dbf).2.q = 1 ∧ Shrinks s (qindex c s a j m dbf).1 := by
-  have hs := getCache_shrinks s (.x a) m
+  have hs := getCache_shrinks s (c.place (.x a)) (.x a) m
   unfold qindex at h ⊢
   simp only [] at h ⊢
-  cases hg : (getCache s (CKey.x a) m).2.1 <;> simp only [hg] at h ⊢
+  cases hg : (getCache s (c.place (.x a)) (CKey.x a) m).2.1 <;> simp only [hg] at h ⊢
   · cases h
   · cases h
   · rename_i v
@@ -122,7 +124,7 @@ theorem loaded_ph_view_p {s : St} {pk : Nat} (hv : CVal.ph = dbView s (.p pk)) :
 /-- **coherent read through a primary key**: unless the GET fails (cache error) or the database call fails,
 a Take whose cached entry — if there is one — is `loaded` returns exactly what the database holds. -/
 theorem takeP_coherent (c : Cfg) {s : St} (hc : Coh s) (pk j : Nat) (m : List Bool) (dbf : Bool)
-    (hl : ∀ e, s.cache (.p pk) = some e → e.origin = .loaded)
+    (hl : ∀ e, s.cache (c.slot (.p pk)) = some e → e.origin = .loaded)
     (hf : failAt m 0 = false) (hd : dbf = false) :
     (takeP c s pk j m dbf).2.res = Spec.expected s (.p pk) := by
   unfold takeP
@@ -163,14 +165,14 @@ theorem loaded_ph_view_x {s : St} {a : Nat} (hv : CVal.ph = dbView s (.x a)) :
 /-- **coherent read through an index key**: both entries consulted (the index entry, and the primary entry it
 points to) are `loaded` if present; no cache command fails, the database call does not fail. -/
 theorem qindex_coherent (c : Cfg) {s : St} (hc : Coh s) (a j : Nat) (m : List Bool) (dbf : Bool)
-    (hl : ∀ e, s.cache (.x a) = some e → e.origin = .loaded)
-    (hl' : ∀ e n e', s.cache (.x a) = some e → e.val = .pk n → s.cache (.p n) = some e' → e'.origin = .loaded)
+    (hl : ∀ e, s.cache (c.slot (.x a)) = some e → e.origin = .loaded)
+    (hl' : ∀ e n e', s.cache (c.slot (.x a)) = some e → e.val = .pk n → s.cache (c.slot (.p n)) = some e' → e'.origin = .loaded)
     (hm : ∀ i, failAt m i = false) (hd : dbf = false) :
     (qindex c s a j m dbf).2.res = Spec.expected s (.x a) := by
   have hf := hm 0
   unfold qindex
   simp only []
-  cases hg : (getCache s (CKey.x a) m).2.1 <;> (try simp only [])
+  cases hg : (getCache s (c.place (.x a)) (CKey.x a) m).2.1 <;> (try simp only [])
   · unfold getCache at hg
     simp [hf] at hg
     repeat' split at hg
@@ -183,8 +185,8 @@ theorem qindex_coherent (c : Cfg) {s : St} (hc : Coh s) (a j : Nat) (m : List Bo
     rename_i n
     obtain ⟨r, hr, hrn⟩ := loaded_idx_view (hv ▸ hc _ e he (hl e he))
     simp only [hst]
-    have hf2 : failAt (m.drop (getCache s (CKey.x a) m).2.2.length) 0 = false := by
-      have := hm ((getCache s (CKey.x a) m).2.2.length)
+    have hf2 : failAt (m.drop (getCache s (c.place (.x a)) (CKey.x a) m).2.2.length) 0 = false := by
+      have := hm ((getCache s (c.place (.x a)) (CKey.x a) m).2.2.length)
       simpa [failAt, List.getD, List.getElem?_drop] using this
     rw [takeP_coherent c hc n j _ dbf (fun e' he' => hl' e n e' he hv he') hf2 hd]
     simp only [Spec.expected, hr]
@@ -223,12 +225,13 @@ theorem cfg_pos (exp nf : Nat) : 0 < (Cfg.ofOptions exp nf).exp ∧ 0 < (Cfg.ofO
 
 /-- what a Take may change in the cache: only its own key; a written entry is `loaded`, holds the placeholder
 with the not-found TTL or a row with the expiry TTL. -/
-theorem takeP_writes (c : Cfg) (s : St) (pk j : Nat) (m : List Bool) (dbf : Bool) (k : CKey) :
+theorem takeP_writes (c : Cfg) (s : St) (pk j : Nat) (m : List Bool) (dbf : Bool) (k : Slot) :
     (takeP c s pk j m dbf).1.cache k = s.cache k ∨ (takeP c s pk j m dbf).1.cache k = none ∨
-    (k = .p pk ∧ ((takeP c s pk j m dbf).1.cache k = some ⟨.ph, ttlSec c.nf j * 1000, .loaded⟩ ∨
+    (k = c.slot (.p pk) ∧ ((takeP c s pk j m dbf).1.cache k = some ⟨.ph, ttlSec c.nf j * 1000, .loaded⟩ ∨
                   ∃ r, dbRow s pk = some r ∧ (takeP c s pk j m dbf).1.cache k = some ⟨r, ttlSec c.exp j * 1000, .loaded⟩)) := by
-  have hs := getCache_shrinks s (.p pk) m k
-  have base : (getCache s (.p pk) m).1.cache k = s.cache k ∨ (getCache s (.p pk) m).1.cache k = none := hs
+  have hs := getCache_shrinks s (c.place (.p pk)) (.p pk) m k
+  have base : (getCache s (c.place (.p pk)) (.p pk) m).1.cache k = s.cache k
+      ∨ (getCache s (c.place (.p pk)) (.p pk) m).1.cache k = none := hs
   unfold takeP
   simp only []
   split
@@ -244,13 +247,13 @@ theorem takeP_writes (c : Cfg) (s : St) (pk j : Nat) (m : List Bool) (dbf : Bool
         · split
           · rcases base with h | h <;> simp [h]
           · simp only [upd]
-            by_cases hk : k = .p pk
+            by_cases hk : k = c.slot (.p pk)
             · simp [hk]
             · simp only [hk, if_false]
               rcases base with h | h <;> simp [h]
       · rename_i r hr
-        rcases setex_fail_or (getCache s (.p pk) m).1 (.p pk) r (ttlSec c.exp j) .loaded
-          (failAt m (getCache s (.p pk) m).2.2.length) k with h | ⟨hk, h⟩
+        rcases setex_fail_or (getCache s (c.place (.p pk)) (.p pk) m).1 (c.slot (.p pk)) r (ttlSec c.exp j) .loaded
+          (failAt m (getCache s (c.place (.p pk)) (.p pk) m).2.2.length) k with h | ⟨hk, h⟩
         · rw [h]; rcases base with h | h <;> simp [h]
         · right; right; exact ⟨hk, Or.inr ⟨r, hr, h⟩⟩
 
